@@ -351,12 +351,13 @@ pub async fn run(cli: &Cli, report: &mut Report) {
         let m = spec.max_packet_length;
         // (C02 mode: only the cookie cases)
         let cookies_only = cli.prop == "C02";
+        let frames_only = cli.prop == "C04";
         // max+1, a frame that still fits any small receive buffer, and a much larger one
         for declared in if cookies_only { vec![] } else { vec![m, m + 1, m + 12, 10 * m] } {
             futures.push(Box::pin(frame_case(addr, m, declared)));
         }
         let ages: Vec<i64> = if spec.expiry <= 5 { vec![0, 30, 3600] } else if spec.expiry <= 60 { vec![0, 30, 3600] } else { vec![0, 30, 7200] };
-        for age in ages {
+        for age in if frames_only { vec![] } else { ages } {
             // the cookie response frame is ~250 bytes: it only fits under a larger maximum
             if spec.max_packet_length < 400 {
                 continue;
@@ -372,7 +373,7 @@ pub async fn run(cli: &Cli, report: &mut Report) {
                 futures.push(Box::pin(async move { cookie_case(addr, &secret, expiry, age, own, seed, Duration::ZERO).await }));
             }
         }
-        if spec.expiry == 5 && spec.timeout >= 8 && spec.max_packet_length >= 400 {
+        if !frames_only && spec.expiry == 5 && spec.timeout >= 8 && spec.max_packet_length >= 400 {
             // 2 s old at connect, presented 2.5 s later: 4.5 s < 5 s still valid; 1 s later: expired.
             // (margins of 0.5 s and more on both sides of the wall-clock boundary are too tight on a
             // loaded machine, so: valid = 1 s old + 1.5 s stall, expired = 4 s old + 2.5 s stall)
@@ -383,7 +384,7 @@ pub async fn run(cli: &Cli, report: &mut Report) {
                 futures.push(Box::pin(async move { cookie_case(addr, &secret, expiry, age, true, seed, Duration::from_millis(stall_ms)).await }));
             }
         }
-        if spec.expiry == 4 {
+        if !frames_only && spec.expiry == 4 {
             for (wait_s, k) in [(1u64, 1u64), (6, 2)] {
                 let expiry = spec.expiry;
                 futures.push(Box::pin(async move { issued_cookie_case(addr, expiry, Duration::from_secs(wait_s), 500 + k).await }));
@@ -394,7 +395,7 @@ pub async fn run(cli: &Cli, report: &mut Report) {
             behaviours.push(Behaviour::StopAfter(k));
         }
         // the long-deadline listener only measures close times in the thorough tier
-        let reps = if cookies_only { 0 } else if thorough { 4 } else if spec.timeout > 4 { 0 } else { 1 };
+        let reps = if cookies_only || frames_only { 0 } else if thorough { 4 } else if spec.timeout > 4 { 0 } else { 1 };
         for _ in 0..reps {
             for b in &behaviours {
                 futures.push(Box::pin(deadline_case(addr, spec.timeout, b.clone(), false)));
@@ -403,7 +404,7 @@ pub async fn run(cli: &Cli, report: &mut Report) {
     }
     // a backend that hangs: Listener directly with a discovery that never completes; the client
     // does everything right (echoes Keep Alives) and must still be cut off at the deadline
-    for timeout in if cli.prop == "C02" { vec![] } else if thorough { vec![2u64, 18] } else { vec![2u64] } {
+    for timeout in if cli.prop == "C02" || cli.prop == "C04" { vec![] } else if thorough { vec![2u64, 18] } else { vec![2u64] } {
         let l = start_direct(DirectSpec { timeout: Duration::from_secs(timeout), never_discovers: true, ..Default::default() }).await;
         futures.push(Box::pin(deadline_case(l.addr, timeout, Behaviour::StopAfter(99), true)));
         std::mem::forget(l);
